@@ -35,6 +35,25 @@ def fact2_pair(N):
     return (v, ok)
 
 
+def fact1_pair(N):
+    """(values, validity) hiding a REAL number under False validity."""
+    v = FACT1(N).copy()
+    ok = numpy.ones(N, dtype=bool)
+    if N > 1:
+        ok[1] = False
+        v[1] = 1000.0
+    return (v, ok)
+
+
+def weights_pair(N):
+    w = weights(N).copy()
+    ok = numpy.ones(N, dtype=bool)
+    if N > 2:
+        ok[2] = False
+        w[2] = 1e6
+    return (w, ok)
+
+
 def weights(N):
     return numpy.array([0.5, 1.0, 2.0, 4.0, 8.0][:N])
 
@@ -58,6 +77,13 @@ HARNESSES = {
     "x22": ("xcube", 4, [[2, 2]], None, ["stddev", "quantile", "max"]),
     "x2x2": ("xcube", 3, [[2], [2]], None, ["mean2_w", "corrcoef", "covariance"]),
     "x3": ("xcube", 3, [[3]], None, ["valid_count", "min", "quantile_w"]),
+    # (values, validity) facts hiding real numbers and (values, validity) weights: lazily applied masks matter
+    "c3p": ("ccube", 3, [[3]], [1], ["sum_p", "mean_p", "valid_count_p"]),
+    "x3p": ("xcube", 3, [[3]], None, ["quantile_p", "stddev_p", "mean_p"]),
+    "x2x2p": ("xcube", 3, [[2], [2]], None, ["sum_p", "max_p", "covariance_p"]),
+    # a column that holds only the common value (an entirely empty 1-D slice)
+    "c3z": ("ccube", 3, [[3]], [0], ["count", "sum"], "zero-column"),
+    "c2x2z": ("ccube", 2, [[2], [2]], [0, 0], ["count"], "zero-column"),
     # serial-only shapes for the cancellation property (1, 2, 6 sub-cubes)
     "c1": ("ccube", 3, [[], []], [0, 1], ["count", "sum"]),
     "c2": ("ccube", 3, [[2]], [2], ["mean2"]),
@@ -79,6 +105,9 @@ def make_funcs(kind, N, names):
             "sum_w": lambda: F.ffunc_sum(FACT1(N), weights(N)),
             "mean2": lambda: F.ffunc_mean(fact2_pair(N), None, True, (0, False)),
             "mean_wm": lambda: F.ffunc_mean(FACT1(N), weights_missing(N)),
+            "sum_p": lambda: F.ffunc_sum(fact1_pair(N), weights_pair(N), True),
+            "mean_p": lambda: F.ffunc_mean(fact2_pair(N), weights_pair(N), True),
+            "valid_count_p": lambda: F.ffunc_valid_count(fact1_pair(N), None, False, (0, False)),
         }
     else:
         from catii import xfuncs as F
@@ -96,14 +125,23 @@ def make_funcs(kind, N, names):
             "min": lambda: F.xfunc_min(FACT1(N)),
             "corrcoef": lambda: F.xfunc_corrcoef(FACT2(N)),
             "covariance": lambda: F.xfunc_covariance(FACT2(N), weights(N)),
+            "quantile_p": lambda: F.xfunc_quantile(fact1_pair(N), 0.5, None, True),
+            "stddev_p": lambda: F.xfunc_stddev(fact2_pair(N), weights_pair(N), True),
+            "mean_p": lambda: F.xfunc_mean(fact1_pair(N), weights_pair(N), True, (0, False)),
+            "sum_p": lambda: F.xfunc_sum(fact2_pair(N), weights_pair(N), True),
+            "max_p": lambda: F.xfunc_max(fact1_pair(N), True, (0, False)),
+            "covariance_p": lambda: F.xfunc_covariance(fact2_pair(N), weights_pair(N), True),
         }
     return [table[n]() for n in names]
 
 
 def make(name, parallel=None, poolsize=None):
     """-> (cube, funcs). parallel: None leaves the constructor's choice."""
-    kind, N, extras, commons, fnames = HARNESSES[name]
+    kind, N, extras, commons, fnames = HARNESSES[name][:5]
     denses = [_dense((N,) + tuple(ex), i + 1) for i, ex in enumerate(extras)]
+    if len(HARNESSES[name]) > 5 and HARNESSES[name][5] == "zero-column":
+        denses[0] = denses[0].copy()
+        denses[0][:, 1] = commons[0]
     shape = (3,) * len(denses)
     if kind == "ccube":
         from catii.ccubes import ccube
@@ -122,7 +160,7 @@ def make(name, parallel=None, poolsize=None):
 
 
 def subcubes(name):
-    kind, N, extras, commons, fnames = HARNESSES[name]
+    kind, N, extras, commons, fnames = HARNESSES[name][:5]
     n = 1
     for ex in extras:
         for e in ex:
